@@ -23,17 +23,22 @@
 package queue
 
 import (
-	"sync"
 	"sync/atomic"
 	"unsafe"
 )
 
 // Queue defines a lock-free Queue.
+//
+// Nodes are never recycled: a Michael-Scott queue is only correct when a node
+// that has been unlinked cannot be observed in a new role by a goroutine that
+// still holds a pointer to it. With a garbage collector that is guaranteed as
+// long as nodes are not reused, so every Enqueue allocates its node and a
+// dequeued node is simply dropped (its next pointer is kept intact so that a
+// lagging tail or a slow reader can still walk forward to the live part).
 type Queue struct {
 	head unsafe.Pointer // pointer to the head of the queue
 	tail unsafe.Pointer // pointer to the tail of the queue
 	len  int64          // length of the queue
-	pool sync.Pool
 }
 
 // item is a single node in the queue.
@@ -50,19 +55,12 @@ func NewQueue() *Queue {
 		head: unsafe.Pointer(dummy), // both head and tail point to the dummy node
 		tail: unsafe.Pointer(dummy),
 		len:  0,
-		pool: sync.Pool{
-			New: func() any {
-				return &item{}
-			},
-		},
 	}
 }
 
 // Enqueue adds a value to the tail of the queue.
 func (q *Queue) Enqueue(v any) {
-	// Get a node from the pool
-	newNode := q.getItem()
-	newNode.v = v
+	newNode := &item{v: v}
 	newNodePtr := unsafe.Pointer(newNode)
 
 	for {
@@ -105,11 +103,10 @@ func (q *Queue) Dequeue() any {
 
 		// Try to advance the head
 		if atomic.CompareAndSwapPointer(&q.head, unsafe.Pointer(head), next) {
-			// Get the value before potentially releasing the node
+			// nextNode is the new sentinel. Only the winner of the CAS above reads
+			// its value, so the reference can be dropped here to not retain it.
 			value := nextNode.v
-
-			// Release the old head node back to the pool
-			q.releaseItem(head)
+			nextNode.v = nil
 
 			// Decrement length atomically
 			atomic.AddInt64(&q.len, -1)
@@ -120,24 +117,16 @@ func (q *Queue) Dequeue() any {
 }
 
 // Length returns the number of items in the queue.
+// The counter is updated after the link/unlink step, so with concurrent
+// dequeuers it can be transiently negative; that is reported as 0.
 func (q *Queue) Length() uint64 {
-	return uint64(atomic.LoadInt64(&q.len))
+	if n := atomic.LoadInt64(&q.len); n > 0 {
+		return uint64(n)
+	}
+	return 0
 }
 
 // IsEmpty returns true when the queue is empty
 func (q *Queue) IsEmpty() bool {
-	return atomic.LoadInt64(&q.len) == 0
-}
-
-// getItem retrieves a node from the pool or creates a new one
-func (q *Queue) getItem() *item {
-	return q.pool.Get().(*item)
-}
-
-// releaseItem returns a node to the pool for reuse
-func (q *Queue) releaseItem(i *item) {
-	// Reset i to prevent memory leaks
-	i.v = nil
-	i.next = nil
-	q.pool.Put(i)
+	return atomic.LoadInt64(&q.len) <= 0
 }
